@@ -103,6 +103,53 @@ CHECKS["C04"] = (
     "bounded-exhaustive input/configuration enumeration with a metamorphic "
     "(self-referential) oracle")
 
+CHECKS["C05"] = (
+    "4/C05",
+    "Exhaustive product scatterer x theory (Mie, layered, superposition, "
+    "Multisphere 3-cluster, T-matrix shapes, MieLens above/below focus, "
+    "Lens(Mie) above/below, AberratedMieLens) x transformation alphabet: 6 "
+    "shift vectors (whole-pixel, fractional, irrational, 1e3) on grids and "
+    "point detectors; rotation angle (9) x polarization angle (4) x pivot "
+    "(2) with scatterer, polarization and detector rotated together; mirror "
+    "planes and sphere symmetry on odd/even grids.  Metamorphic oracle: "
+    "transformed vs base configuration; the transverse field must rotate "
+    "as a vector.",
+    "Trusted: nothing beyond numpy; T-matrix accepts only polarization "
+    "(1,0) so only shift/mirror apply to it.  Alphabet values only.",
+    "bounded-exhaustive input/configuration enumeration with metamorphic "
+    "oracle")
+CHECKS["C10"] = (
+    "4/C10",
+    "Exhaustive products on the real T-matrix code: sphere limit (size x "
+    "index x 6 polar x 7 azimuth) through calc_scat_matrix, calc_field and "
+    "Lens(Tmatrix) vs far-field Mie; equal-axes spheroid vs sphere over an "
+    "orientation alphabet; spin / axis-reversal / mirror symmetries for 7 "
+    "shapes x 4 orientations; robustness: full product shape x size x beta "
+    "x gamma (incl. negative, >pi, >2pi, +-100, pi+1e-9) plus sizes beyond "
+    "the Fortran array limits, every execution in its own forked child: "
+    "outcome must be finite values or a Python exception (a dead child or "
+    "a hang is a violation), and out-of-range angles must agree with the "
+    "same axis direction written in range.",
+    "Trusted: Mie far field (itself checked against the textbook series in "
+    "C02).  120 s horizon per execution.  Alphabet values only.",
+    "bounded-exhaustive input enumeration with process-level fault "
+    "observation (fork isolation) and differential oracle")
+CHECKS["C18"] = (
+    "4/C18",
+    "Bounded-exhaustive exploration of normalize / bg_correct / subimage / "
+    "zero_filter / detrend / Accumulator / center_find / make_center_priors: "
+    "all shapes in [3..8]^2 x value sets, every crop centre and even size "
+    "that fits, every single dead-pixel position and every non-adjacent "
+    "pair on 5x6, plane-coefficient alphabet^3, every permutation of 2-5 "
+    "pushes (queried after every push, at the end, and as plain arrays), "
+    "and a lattice of computed single-sphere holograms (detector size x "
+    "(r,n,z) x 5x5 lattice x sub-pixel offsets) for the centre finder "
+    "(per-axis error <= 1 px).",
+    "Trusted: numpy.  'Within one pixel' is read per axis (the weaker "
+    "reading).  Alphabet / lattice values only.",
+    "bounded-exhaustive input and push-order enumeration vs numpy "
+    "reference model")
+
 NOT_YET = {}
 
 
